@@ -1,4 +1,5 @@
 """C09 — alternative distance algorithms (structural clauses)."""
+from . import scopes
 from ..core.report import DOMAIN_D
 from ..rules import nesterov, johnson, mink, loops, frame
 from .common import e2
@@ -9,6 +10,7 @@ O = "distance3d.gjk._gjk_original"
 
 
 def run(idx, rep, tier):
+    rep.set_scope(scopes.scope(idx, "C09"))
     rep.explanation = (
         "R-INFL: finite enumeration over all ordered pairs of collider classes (extracted from the source) and both sides: "
         "the radius is added to the inflation iff both sides use their specialised supports and that side's specialised "
